@@ -29,13 +29,15 @@ prop("C01", NEC + "Clauses: positions handed to TokenChange queries are absolute
      "is turned away (STRIP-REBUILD); the TextChanges handed to update are computed against the text they will be applied to "
      "(TEXT-SYNC batch clauses); batch and incremental lexer skip the same separators; an old node is reused only where it starts "
      "in the new token stream, a parser that gives up as Affected hands back the input it was entered with, and the stack of old "
-     "Reference offsets is popped exactly when it was pushed (REUSE).",
+     "Reference offsets is popped exactly when it was pushed (REUSE); an error pushed by expect() is collected by an info() of its own "
+     "reuse unit, or the unit refuses reuse of nodes that reported outward (ERROR-OWNER).",
      [{"rule": "TOKCHANGE-ARGS", "floor": 4}, {"rule": "REBUILD", "floor": 14}, {"rule": "STRIP-SET", "floor": 4},
       {"rule": "SAVE-RESTORE", "floor": 4}, {"rule": "EQ-COMPLETE", "floor": 43},
       {"rule": "TRAVERSE", "filter": tag("traverse"), "floor": 106},
       {"rule": "TOKEN-ERRORS", "floor": 2}, {"rule": "TABLES", "filter": tag("T2"), "floor": 17},
       {"rule": "UPDATE-ORDER", "floor": 3}, {"rule": "RELEX-WINDOW", "floor": 8}, {"rule": "STRIP-REBUILD", "floor": 2},
-      {"rule": "COMMENT-LEX", "floor": 5}, {"rule": "TEXT-SYNC", "filter": tag("batch"), "floor": 4}, {"rule": "REUSE", "floor": 5}])
+      {"rule": "COMMENT-LEX", "floor": 5}, {"rule": "TEXT-SYNC", "filter": tag("batch"), "floor": 4}, {"rule": "REUSE", "floor": 13},
+      {"rule": "ERROR-OWNER", "floor": 20}])
 
 prop("C02", NEC + "Clauses: token-range to text-range conversions unwrap first()/last() only in the arm complementary "
      "to `range.is_empty()`; token byte ranges are taken from the consumed input, so they lie on character boundaries "
@@ -72,8 +74,8 @@ prop("C04", NEC + "Clauses: shape of the precedence-climbing parser (levels, loo
 
 prop("C05", NEC + "Clauses: the five synchronisation sets are nested and all contain proc/type/eof, each error "
      "variant recovers with its own set (SYNC-SETS); failed token parsers and expect() hand back the original "
-     "input; declaration keywords are consumed only at declaration level (NOCONSUME).",
-     [{"rule": "SYNC-SETS", "floor": 10}, {"rule": "NOCONSUME", "filter": tag("tag", "expect", "kw"), "floor": 40}])
+     "input, and so do the five recovery parsers when they find nothing to ignore; declaration keywords are consumed only at declaration level (NOCONSUME).",
+     [{"rule": "SYNC-SETS", "floor": 10}, {"rule": "NOCONSUME", "filter": tag("tag", "expect", "kw", "recover"), "floor": 45}])
 
 prop("C06", NEC + "Clauses: alt(..) order vs. prefix relation of static lexemes (longest match), every static token "
      "lexed exactly once through the macro of its class, class order, exactly one Eof; token ranges are the ranges of the "
